@@ -15,7 +15,7 @@ from .c02 import B64, grid_states
 
 TYPES = gen.INT_TYPES
 CONTEXTS = ["cast", "init", "assign", "chainassign", "reg32", "reg64", "pred", "alias", "arg", "ret", "store",
-            "compound_add", "compound_mul", "compound_sub"]
+            "compound_add", "compound_mul", "compound_sub", "chainreg32", "chainpred"]
 
 
 def tn(t):
@@ -58,6 +58,11 @@ def cell_program(ctx, ts, tt):
         return f"{{ {a} {tn(tt)} t; t = a; RddV = (int64_t)t; }}", tt
     if ctx == "chainassign":
         return f"{{ {a} {tn(tt)} t; int64_t w; w = t = a; RddV = w; }}", tt
+    if ctx == "chainreg32":
+        # the value of `ReV = a` is the converted value (32 bit signed), not a
+        return f"{{ {a} int64_t w; w = ReV = a; RddV = w; }}", (True, 32)
+    if ctx == "chainpred":
+        return f"{{ {a} int64_t w; w = PeV = a; RddV = w; }}", (True, 8)
     if ctx == "reg32":
         return f"{{ {a} ReV = a; }}", (True, 32)
     if ctx == "reg64":
@@ -163,7 +168,7 @@ def table_worker(cells, tier, open_classes):
             vals = B64
         extra = {"isa:e": {"w": 8 if ctxname == "pred" else 32, "old": 0, "new": 0},
                  "alias:LR": {"w": 32, "old": 0, "new": 0}}
-        extra["isa:e"]["w"] = 8 if ctxname.split("@")[0] == "pred" else 32
+        extra["isa:e"]["w"] = 8 if ctxname.split("@")[0] in ("pred", "chainpred") else 32
         tvals = [0x1000] if ts is not None else B64
         states = grid_states(vals, tvals, extra)
         for s_ in states:
@@ -279,7 +284,7 @@ def run_check(ctx):
         if f.get("status") == "open" and f["id"] in ctx.known_hit:
             open_classes |= set(f.get("cell_classes", []))
     cells = [(cx, ts, tt) for cx in CONTEXTS for ts in TYPES for tt in TYPES
-             if not (cx in ("reg32", "reg64", "pred", "alias") and tt != TYPES[0])]
+             if not (cx in ("reg32", "reg64", "pred", "alias", "chainreg32", "chainpred") and tt != TYPES[0])]
     cells += [(cx, None, tt) for cx in ("cast", "init", "assign") for tt in TYPES]
     base_ctx = ["cast", "init", "assign", "reg32", "reg64", "pred", "alias", "arg", "ret", "store"]
     cells += [(f"{cx}@macro{k}", ts, tt) for cx in base_ctx for ts in MACRO_SRC for k in range(len(MACRO_SRC[ts])) for tt in TYPES
